@@ -26,7 +26,7 @@ ASSUMPTIONS = [
 us = SC.us
 
 
-def instance_cases(policies, partial=False):
+def instance_cases(policies, partial=False, retract=False):
     @st.composite
     def s(draw):
         pname = draw(st.sampled_from(list(policies)))
@@ -67,8 +67,17 @@ def instance_cases(policies, partial=False):
             pol.update(release_taskgraphs=chains, time_discretization=disc, plan_ahead=12 * disc if draw(st.booleans()) else -1)
         else:
             pol.update(time_discretization=disc, plan_ahead=12 * disc if draw(st.booleans()) else -1)
+        scheduled = []
+        if pname == "ILP" and (retract or draw(st.integers(0, 3)) == 0):
+            # retract_schedules: tasks an earlier invocation planned for later are offered again and may be moved or dropped
+            # like any other offered task, so the optimum ranges over them too
+            pol["retract_schedules"] = True
+            for g in graphs:
+                if not g["name"].startswith("R") and (draw(st.booleans()) or (retract and not scheduled)):
+                    scheduled.append({"graph": g["name"], "job": g["jobs"][0]["name"], "pool": 0, "worker": draw(st.integers(0, 1)),
+                                      "strategy": draw(st.integers(0, 1)), "at": draw(st.integers(1, 6))})
         case = {"seed": draw(st.integers(0, 999)), "now": now, "cluster": cluster, "profiles": profiles, "graphs": graphs, "running": running,
-                "scheduled": [], "completed": [], "policy": pol, "chains": chains}
+                "scheduled": scheduled, "completed": [], "policy": pol, "chains": chains}
         if pname != "ILP" and draw(st.integers(0, 2)) == 0:
             # the policy object has already served an earlier invocation (one short-deadline task at now - 1): the
             # TetriSched planners keep no state between invocations that could matter for the plan
@@ -245,7 +254,8 @@ def execute(case):
         return res
     state = rec["state"]
     space = Space(case, rec)
-    offered = [t for t, s in (rec["offers"][0] if rec["offers"] else []) if s in ("RELEASED", "VIRTUAL")]
+    retract = bool(case["policy"].get("retract_schedules"))
+    offered = [t for t, s in (rec["offers"][0] if rec["offers"] else []) if s in ("RELEASED", "VIRTUAL") or (retract and s == "SCHEDULED")]
     if not offered or len(offered) > 4:
         res.discard = "outside_enumeration_bound"
         return res
@@ -359,6 +369,8 @@ def execute(case):
                 break
     res.nontrivial = contention
     res.classes = [f"policy={pname}", "contention" if contention else "everything_fits", "chains" if case.get("chains") else "task_by_task"]
+    if retract and any(t.state == TaskState.SCHEDULED for t in offered):
+        res.classes.append("retractable_earlier_plan")
     if partial:
         res.classes.append("partially_executed_running_task")
     return res
@@ -366,6 +378,7 @@ def execute(case):
 
 CHECKS = [
     Check("ilp_goodput", execute, strategy=lambda tier: instance_cases(("ILP",)), budget={"quick": 160, "thorough": 5000}),
+    Check("ilp_goodput_retraction", execute, strategy=lambda tier: instance_cases(("ILP",), retract=True), budget={"quick": 128, "thorough": 3000}),
     Check("tetrisched_gurobi_maximal", execute, strategy=lambda tier: instance_cases(("TetriSched_Gurobi",)), budget={"quick": 160, "thorough": 5000}),
     Check("tetrisched_cplex_maximal", execute, strategy=lambda tier: instance_cases(("TetriSched_CPLEX",)), budget={"quick": 96, "thorough": 3000}),
     Check("partially_executed_running", execute, strategy=lambda tier: instance_cases(("ILP", "TetriSched_Gurobi"), partial=True), budget={"quick": 96, "thorough": 2000}),
